@@ -12,7 +12,7 @@ for pid in props:
         continue
     checks.append({
         "property_id": pid,
-        "quick_cmd": f"bin/govc check {pid} --tier quick",
+        "quick_cmd": f"bin/govc check {pid} --tier quick" + (f" --timeout {c['timeout']}" if c.get('timeout') else ""),
         "thorough_cmd": f"bin/govc check {pid} --tier thorough",
         "evidence_file": f"evidence/{pid}.json",
         "replay_cmd_template": "bin/govc replay {path}",
